@@ -15,7 +15,7 @@ from .values import enc, enc_num
 
 STATS = ['SUM', 'PRODUCT', 'AVERAGE', 'MIN', 'MAX', 'COUNT', 'MEDIAN', 'MODE', 'VAR', 'VARP', 'AVEDEV', 'VAR.S', 'VAR.P', 'MODE.SNGL']
 ERRWIN = ['SUM', 'PRODUCT', 'AVERAGE', 'MIN', 'MAX', 'MEDIAN']
-CRITS = ['>0', '<=1', '=1', '<>1', 1, '3', '>1.5', '<-1', '>=3', 1.5, '=0']
+CRITS = ['>0', '<=1', '=1', '<>1', 1, '3', '>1.5', '<-1', '>=3', 1.5, '=0', 3.0, '1.0']   # 3.0: a float criterion equal to integer cells
 
 
 def arr(items):
@@ -39,11 +39,20 @@ def groupings(rng, xs):
     return out
 
 
+def as_float(v):
+    return dict(v, f=True) if v.get('t') == 'num' and v.get('d') == 1 else v
+
+
 def crit_cases(rng, xs):
     cases = []
     r = arr(xs)
+    fr = arr([as_float(x) for x in xs])      # the same cells held as floats: 2.0 equals 2 whatever the spelling
+    for c in (1, 3, 0):
+        cases.append({'f': 'COUNTIF', 'args': [fr, enc(c)]})
+        cases.append({'f': 'SUMIF', 'args': [fr, enc(c)]})
+        cases.append({'f': 'SUMIFS', 'args': [r, fr, enc(c)]})
     for c in CRITS:
-        cv = enc(c)
+        cv = as_float(enc(int(c))) if isinstance(c, float) and c == int(c) else enc(c)
         cases.append({'f': 'SUMIF', 'args': [r, cv]})
         cases.append({'f': 'COUNTIF', 'args': [r, cv]})
         cases.append({'f': 'AVERAGEIF', 'args': [r, cv]})
@@ -77,6 +86,10 @@ def rand_cases(rng):
     elif k <= 5:
         n = rng.randint(2, 12)
         xs = [rnum(rng, True) for _ in range(n)]
+        if rng.random() < 0.4:       # a large mean with a small spread, or all items equal: where one-pass formulas cancel
+            base = rng.randint(-2990, 2990)
+            spread = rng.choice([0, 0, 1, 3])
+            xs = [enc_num(Fraction(base + rng.randint(-spread, spread), 10)) for _ in range(n)]
         for f in ('VAR', 'VARP', 'AVEDEV', 'VAR.S', 'VAR.P'):
             for g in groupings(rng, xs)[:3]:
                 out.append({'f': f, 'args': g})
@@ -123,6 +136,10 @@ def relation_obs(lib, rng, n):
     for _ in range(n):
         k = rng.randint(2, 10)
         xs = [rng.choice([rng.randint(-50, 50), rng.randint(-500, 500) / 10]) for _ in range(k)]
+        if rng.random() < 0.35:      # all items equal, or a large mean with a small spread
+            b = rng.randint(-2990, 2990)
+            sp = rng.choice([0, 0, 1, 2])
+            xs = [(b + rng.randint(-sp, sp)) / 10 for _ in range(k)]
         env = F.empty_env()
         env['vars'] = {'xs': enc(xs), 'zero': enc(0), 'one': enc(1), 'vn': enc(k)}
         for sd, var in (('STDEV', 'VAR'), ('STDEVP', 'VARP'), ('STDEV.S', 'VAR.S'), ('STDEV.P', 'VAR.P')):
@@ -179,7 +196,7 @@ def main(tier, replay=None):
             cases += crit_cases(rng, xs)
             for f in ERRWIN:
                 cases.append({'f': f, 'args': xs + [{'t': 'err', 'c': '#N/A'}]})
-    for _ in range(350 if quick else 15000):
+    for _ in range(280 if quick else 15000):
         cases += rand_cases(rng)
     obs = fncases.observe(lib, cases, ranges=False)
     so = suite.observations({'SUM','PRODUCT','AVERAGE','MIN','MAX','COUNT','MEDIAN','MODE','MODE.SNGL','VAR','VAR.S','VARP','VAR.P','AVEDEV','HARMEAN','LARGE','SLOPE','SUMIF','COUNTIF','AVERAGEIF','SUMIFS','AVERAGEIFS','MAXIFS'}, len(obs) + 1)   # the same functions as the repository's own tests call them
